@@ -44,9 +44,26 @@ Definition upconvert_real (g : GR.groups) (k : GR.kerning) (gs : list str) : GR.
 
 (** ** plist dictionaries: the real value type of Model/Plist.v.  [Dictionary::get] = first match,
     [insert] = replace in place or append ([dict_insert]), [remove] = drop the key; two dictionaries
-    are equal when they answer every lookup alike (key order is not observable). *)
+    are equal when they answer every lookup alike, values compared as plist values. *)
 Definition pd_del (k : str) (d : dict) : dict := filter (fun e => negb (str_eqb (fst e) k)) d.
-Definition pd_eq (a b : dict) : Prop := forall k, alookup k a = alookup k b.
+(** Equality of plist values is that of the plist crate ([Value: PartialEq], a [Dictionary] being a
+    map): the order of the keys of a dictionary, at any depth below dictionaries, is not
+    observable.  It is decided by a normal form: keys sorted recursively (through dictionaries, not
+    through arrays, as [util::recursive_sort_plist_keys] does).  The association-list type also
+    holds lists with a repeated key, which no [Dictionary] is; there only the first entry of a key
+    can be looked up, and the normal form keeps that one ([dedupe]; the identity on dictionaries). *)
+Fixpoint dedupe (d : dict) : dict :=
+  match d with
+  | [] => []
+  | (k, v) :: r => (k, v) :: pd_del k (dedupe r)
+  end.
+Fixpoint nf (v : pv) : pv :=
+  match v with
+  | PDict d => PDict (sort_keys (dedupe (map_values nf d)))
+  | _ => v
+  end.
+Definition pv_eqv (v w : pv) : Prop := nf v = nf w.
+Definition pd_eq (a b : dict) : Prop := forall k, option_map nf (alookup k a) = option_map nf (alookup k b).
 
 (** ** what stays abstract: the file codecs of the plist layer (and the colour type) *)
 Record codecs : Type := {
@@ -138,7 +155,7 @@ Definition real_sig : sig := {|
   T_content := rcontent; T_opts := ropts; T_pv := pv; T_dict := dict;
   T_irest := rinfo; T_gbody := rline; T_color := K_color K; T_groups := GR.groups;
   T_kerning := GR.kerning; T_glyph := glyph;
-  veq := eq; deq := pd_eq; d_empty := []; d_get := fun k d => alookup k d; d_set := dict_insert; d_del := pd_del;
+  veq := pv_eqv; deq := pd_eq; d_empty := []; d_get := fun k d => alookup k d; d_set := dict_insert; d_del := pd_del;
   d_is_empty := fun d => is_nil d; mk_dict := PDict;
   as_dict := fun v => match v with PDict d => Some d | _ => None end;
   wf_key := K_wf_key K; wf_pv := K_wf_pv K; wf_color := K_wf_color K; lc_entry_wf := K_lc_entry_wf K;
@@ -220,6 +237,25 @@ Record codecs_closed (K : codecs) : Prop := {
 Definition glyph_rt_domain (pf : str -> option fl) (ff3 : fl -> str) (g : glyph) : Prop :=
   glyph_finite g /\ libs_valid g = true /\ libs_plain g = true /\ note_survives (gnote g) = true /\
   glyph_canon pf ff3 g.
+
+(** ** closedness where it holds for every file, and the rest asked of one tree only.
+    A real lib / kerning / layerinfo reader is NOT closed: it also returns values its writer does not
+    represent (non-finite reals, colours beyond three decimals, ...).  [codecs_closed_base] keeps
+    the closedness laws of the other files; [files_in_domain t] says of the lib.plist, the
+    kerning.plist and the layerinfo.plist files of the tree [t] that what they are read as lies in
+    the domain of their writers. *)
+Record codecs_closed_base (K : codecs) : Prop := {
+  kb_groups : part_closed (K_groups K); kb_lc : part_closed (K_lc K); kb_contents : part_closed (K_contents K);
+  kb_meta_norad : forall c m, dec (K_meta K) c = Some m ->
+                  wf (K_meta K) {| m_creator := Some NORAD_CREATOR; m_version := 3; m_minor := m_minor m |};
+  kb_contents_names : forall c l, dec (K_contents K) c = Some l -> Forall (fun e => name_valid (fst e) = true) l;
+  kb_info_ids : forall r i, FI.fi_load r = Ok i ->
+                forall gs, FI.i_guides i = Some gs -> Forall (fun g => forall id, FI.g_id g = Some id -> K_wf_key K id) gs }.
+Definition files_in_domain pf ff ff3 fi fh (K : codecs) (t : tree (real_sig pf ff ff3 fi fh K)) : Prop :=
+  (forall c d, t_lib _ t = Some (RBase K c) -> dec (K_lib K) c = Some d -> wf (K_lib K) d) /\
+  (forall c k, t_kerning _ t = Some (RBase K c) -> dec (K_kerning K) c = Some k -> wf (K_kerning K) k) /\
+  (forall dn dir c x, alookup dn (t_dirs _ t) = Some dir -> ld_info _ dir = Some (RBase K c) ->
+                      dec (K_li K) c = Some x -> wf (K_li K) x).
 
 (** ** metainfo.plist, layercontents.plist and contents.plist from the tree-level plist codec
     (Model/FontRealPlist.v): what then stays abstract are the codecs of lib.plist, groups.plist,
